@@ -115,6 +115,7 @@ class Probes:
 
 
 T_HISTORY = "c02-meaning-depends-on-earlier-templates"
+T_RERENDER = "c02-meaning-depends-on-earlier-renders"   # a compiled tag rendered again must re-evaluate its arguments in the CURRENT environment
 
 
 class FilterLibs:
@@ -216,6 +217,55 @@ def site_trial(pr, text, form1, form2, loop, kind):
         if not same([str(v) for v in got[j]], stock):
             problems.append("site %d of %s receives %r; stock Django renders the inner text as %r" % (j + 1, both, got[j], stock))
     return problems, [both, site(form1), site(form2)]
+
+
+# render environments: (active language - Django's own catalogs translate Monday / yes,no,maybe / number formats -, Context.autoescape)
+ENVS = [("en", True), ("de", True), ("fr", False), ("de", False), ("en", False), ("fr", True)]
+# leaves whose value depends on the render environment although (most of them) contain no variable
+ENV_LEAVES = ['_("Monday")', '_("Monday")|upper', '_("yes,no,maybe")|lower', '""|default:_("Tuesday")', '"<b>x</b> & y"|upper|linebreaksbr',
+              '"see www.x.org <now>"|urlize', '1234.5|floatformat:2', 't|yesno', 'n|default_if_none:_("Wednesday")', '_("Monday")|add:s',
+              '"{{ i }} <b>"', 's|default:"<i>"|linebreaksbr']
+CTX2_CHANGES = {"i": 6, "s": "Other <s>", "t": False, "l": [9, 8, 7, 6], "q": "qq", "d": {"a": 10, "b": 20}, "e": [0]}
+
+
+def stock_value(leaf, ctx, autoescape):
+    """what stock Django gives for the expression in the CURRENT environment (fresh FilterExpression / Template, nothing retained)"""
+    from django.template import Context, Template
+    from django.template.base import FilterExpression
+    if leaf.startswith('"{'):
+        return Template(leaf[1:-1]).render(Context(dict(ctx), autoescape=autoescape))
+    c = Context(dict(ctx), autoescape=autoescape)
+    c.template = Template("")
+    return FilterExpression(leaf, django_parser()).resolve(c)
+
+
+def environment_trial(pr, leaf, shape, kind, envs):
+    """ONE compiled template, rendered once per environment; every render must hand over what stock Django evaluates in THAT environment"""
+    from django.template import Template, Context
+    from django.utils import translation
+    arg_tpl, expect = shape
+    arg = arg_tpl % leaf
+    src = ("{% component 'c02x' " + arg + " / %}") if kind == "component" else ("{% c02probe " + arg + " / %}")
+    try:
+        tpl = Template(src)
+    except Exception as e:  # noqa
+        return (["%s does not compile: %s" % (src, type(e).__name__)], src)
+    problems, done = [], []
+    for (lang, ae) in envs:
+        ctx = dict(CTX, **CTX2_CHANGES) if (len(done) % 2 == 1) else dict(CTX)
+        with translation.override(lang):
+            exp = expect(stock_value(leaf, ctx, ae))
+            pr.calls.clear()
+            try:
+                tpl.render(Context(dict(ctx), autoescape=ae))
+                got = (pr.calls[0][1], pr.calls[0][2]) if len(pr.calls) == 1 else ("calls", len(pr.calls))
+            except Exception as e:  # noqa
+                got = ("err", type(e).__name__)
+        done.append((lang, ae))
+        if not (len(got) == 2 and isinstance(got[0], list) and same(got[0], exp[0]) and same(got[1], exp[1])):
+            problems.append("%s rendered under %r (render no. %d of the same compiled template, earlier environments %r) hands %r to Python; stock Django "
+                            "evaluates %s to %r there" % (src, (lang, ae), len(done), done[:-1], got, leaf, exp))
+    return problems, src
 
 
 def django_parser():
@@ -367,11 +417,11 @@ def gen_arglist(rng, flags):
 
 
 class Denoter:
-    def __init__(self, ctx):
+    def __init__(self, ctx, autoescape=True):
         from django.template import Context
         from django.template import Template
         self.parser = django_parser()
-        self.ctx = Context(dict(ctx))
+        self.ctx = Context(dict(ctx), autoescape=autoescape)
         self.ctx.template = Template("")
 
     def leaf(self, lf):
@@ -760,6 +810,12 @@ def classify(al_text, items=None):
     return T_DENOTE
 
 
+def sources_exact(kind, body, slash):
+    """the source of a generated case (body starts with its own white space)"""
+    head = "component 'c02x'" if kind == "component" else "c02probe"
+    return "{% " + head + body + " %}" + ("" if (slash or kind == "probe") else "{% endcomponent %}")
+
+
 def sources(kind, body, slash):
     if kind == "component":
         return "{% component 'c02x' " + body + " %}" + ("" if slash else "{% endcomponent %}")
@@ -872,7 +928,7 @@ def run(tier, seed):
                 if li == 0:
                     seen_res = res
                 if li == 1:
-                    rerender.append((kind, body, slash, res))
+                    rerender.append((kind, body, slash, res, al_l))
                 if li < 3 or li == n_lay - 1:
                     model_case(kind, body, slash, res)
                 spec_case(kind, body, slash, items, lay.table, res)
@@ -930,8 +986,54 @@ def run(tier, seed):
                             chk.count(("sites", text, f1[0], f2[0], loop, kind), True, kind="history-stateful-text-two-sites")
                             if problems:
                                 chk.fail(T_HISTORY, problems[0], {"kind": "history", "sources": seq, "problems": problems[:4]})
+            # one compiled template rendered several times while the environment changes between the renders (language, autoescape, values)
+            from django.utils import translation
+            for leaf in ENV_LEAVES:
+                for shi, shape in enumerate(HISTORY_SHAPES):
+                    for kind in ("probe", "component"):
+                        if not thorough and shi > 1 and rng.random() < 0.5:
+                            continue
+                        envs = list(ENVS)
+                        rng.shuffle(envs)
+                        problems, src = environment_trial(pr, leaf, shape, kind, envs[:4] if not thorough else envs)
+                        chk.count(("env", leaf, shape[0], kind, tuple(envs[:4])), True, kind="history-rerender-environment")
+                        if problems:
+                            chk.fail(T_RERENDER, problems[0], {"kind": "rerender", "source": src, "environments": envs[:4] if not thorough else envs,
+                                                              "problems": problems[:4]})
+            # every generated structure: the SAME compiled template rendered a second time with other values, language and autoescape
+            ctx2 = dict(CTX, **CTX2_CHANGES)
+            for (kind, body, slash, first, al_l) in rerender:
+                from django.template import Template, Context
+                try:
+                    with translation.override("de"):
+                        exp2 = Denoter(ctx2, autoescape=False).arglist(al_l)
+                except Exception:  # noqa - denotation undefined under the second set of values
+                    continue
+                src = sources_exact(kind, body, slash)
+                try:
+                    tpl = Template(src)
+                except Exception as e:  # noqa - reported below as the outcome of both renders
+                    tpl = e
+                got = []
+                for (c, lang, ae) in ((CTX, "en", True), (ctx2, "de", False)):
+                    pr.calls.clear()
+                    try:
+                        if isinstance(tpl, Exception):
+                            raise tpl
+                        with translation.override(lang):
+                            tpl.render(Context(dict(c), autoescape=ae))
+                        got.append(("ok", pr.calls[0][1], pr.calls[0][2]) if len(pr.calls) == 1 else ("calls", len(pr.calls), None))
+                    except Exception as e:  # noqa
+                        got.append(("err", type(e).__name__, None))
+                chk.count(("rerender2", kind, body), True, kind="history-rerender-other-values")
+                ok1 = got[0][0] == first[0] and (first[0] != "ok" or (same(got[0][1], first[1]) and same(got[0][2], first[2])))
+                ok2 = got[1][0] == "ok" and same(got[1][1], exp2[0]) and same(got[1][2], exp2[1])
+                if not (ok1 and ok2):
+                    chk.fail(T_RERENDER, "second render of one compiled template (other values, language de, autoescape off) hands %r to Python; its arguments "
+                             "denote %r there (first render: %r)" % (got[1], exp2[:2], got[0]),
+                             {"kind": "rerender", "source": src, "environments": [["en", True], ["de", False]], "second_values": "CTX2_CHANGES"})
             # the same tag text in another template (other surroundings, an unrelated {% load %}), later in the process: identical result
-            for (kind, body, slash, first) in rerender:
+            for (kind, body, slash, first, _al) in rerender:
                 head = "component 'c02x'" if kind == "component" else "c02probe"
                 src = "zz{% load c02lib_a %} {{ i }}{% " + head + body + " %}" + ("" if (slash or kind == "probe") else "{% endcomponent %}") + "yy"
                 res = pr.run(src, CTX)
@@ -1017,6 +1119,23 @@ def replay(path):
     pr = Probes()
     pr.install()
     try:
+        if case.get("kind") == "rerender":
+            from django.template import Template, Context
+            from django.utils import translation
+            tpl = Template(case["source"])
+            print("source:", case["source"])
+            for n, (lang, ae) in enumerate(case["environments"]):
+                c = dict(CTX, **CTX2_CHANGES) if n % 2 == 1 else dict(CTX)
+                pr.calls.clear()
+                try:
+                    with translation.override(lang):
+                        tpl.render(Context(c, autoescape=ae))
+                    print("render %d under %r:" % (n + 1, (lang, ae)), [(x[1], x[2]) for x in pr.calls])
+                except Exception as e:  # noqa
+                    print("render %d under %r:" % (n + 1, (lang, ae)), type(e).__name__, e)
+            for p in case.get("problems", []):
+                print("problem:", p)
+            return 0
         if case.get("kind") == "history":
             libs = FilterLibs()
             libs.install()
